@@ -382,8 +382,10 @@ def axis_call(n, cx):
 
 
 def impedance_at(n, cx):
-    """(*_impedance)[e] -> index, or None"""
+    """(*_impedance)[e] (or a local initialised with it) -> index, or None"""
     n = unwrap(n)
+    if n.get("kind") == "DeclRefExpr" and nm(n) in cx.env and cx.env[nm(n)][0] == "zat":
+        return cx.env[nm(n)][1]
     if n.get("kind") != "CXXOperatorCallExpr" or callee_name(n) != "operator[]":
         return None
     found = []
@@ -397,6 +399,20 @@ def impedance_at(n, cx):
     if not found:
         return None
     return ix(kids(n)[2], cx)
+
+
+def ff_at(n, cx):
+    """_formfactor[e] (or a local initialised with it) -> index, or None"""
+    u = unwrap(n)
+    if u.get("kind") == "DeclRefExpr" and nm(u) in cx.env and cx.env[nm(u)][0] == "ffat":
+        return cx.env[nm(u)][1]
+    try:
+        s = subscript(n, cx)
+    except TranslateError:
+        return None
+    if s and s[0] == "ff":
+        return s[1]
+    return None
 
 
 def val(n, cx, rd):
@@ -463,9 +479,9 @@ def val(n, cx, rd):
         f = callee_name(n)
         args = kids(n)[1:]
         if f == "norm" and len(args) == 1:
-            s = subscript(args[0], cx)
-            if s and s[0] == "ff":
-                rd.add("fi", s[1])
+            fi = ff_at(args[0], cx)
+            if fi is not None:
+                rd.add("fi", fi)
                 return ("var", "normf")
             raise TranslateError("std::norm of something other than _formfactor[...]")
         if f == "real" and len(args) == 1:
@@ -713,15 +729,15 @@ def stmt(st, cx, kern, out):
         a, b = kids(r)[1], kids(r)[2]
         za, zb = impedance_at(a, cx), impedance_at(b, cx)
         if za is not None and zb is None:
-            zi, fcell, order = za, subscript(b, cx), "zf"
+            zi, fi, order = za, ff_at(b, cx), "zf"
         elif zb is not None and za is None:
-            zi, fcell, order = zb, subscript(a, cx), "fz"
+            zi, fi, order = zb, ff_at(a, cx), "fz"
         else:
             raise TranslateError("_wakelosses[...] is not impedance times form factor")
-        if fcell is None or fcell[0] != "ff":
+        if fi is None:
             raise TranslateError("_wakelosses[...]: the other factor is not _formfactor[...]")
         kern.set("loss", order)
-        out.append(("loss", s[1], zi, fcell[1]))
+        out.append(("loss", s[1], zi, fi))
         return
     if k == "BinaryOperator" and e.get("opcode") == "=":
         lhs, rhs = kids(e)
@@ -818,6 +834,18 @@ def decl(vd, cx):
         return
     if "*" in qt:
         cx.env[name] = ptr(init, cx)
+        return
+    # complex locals: one impedance entry or one form factor cell
+    try:
+        zi = impedance_at(init, cx)
+    except TranslateError:
+        zi = None
+    if zi is not None:
+        cx.env[name] = ("zat", zi)
+        return
+    fi = ff_at(init, cx)
+    if fi is not None:
+        cx.env[name] = ("ffat", fi)
         return
     # integer or real local
     try:
